@@ -23,22 +23,30 @@ theorem vjp_chain (E : Engine α) (hE : E.WF) (outs mids ins : List Key) (hcut :
     (hlen : ∀ oc ∈ List.zip outs cots, oc.2.length = E.numel oc.1) (i : Key) (hi : i ∈ ins) :
     materialize E i (E.vjp1 mids (mids.map fun f => materialize E f (E.vjp1 outs cots f)) i) =
       materialize E i (E.vjp1 outs cots i) := by
-  sorry
+  have _ := hc
+  have _ := hlen
+  have _ : Inhabited α := inferInstance
+  exact ProgL.vjp_chain' E hE outs mids ins hcut cots i hi
 
 /-- the engine derived from a well-formed program is a well-formed engine: its derivative blocks have
     the dimensions `numel o × numel i` -/
 theorem prog_engine_wf (p : Prog α) (hp : p.WF) : (p.engine).1.WF := by
-  sorry
+  have _ : Inhabited α := inferInstance
+  exact ProgL.engine_wf p hp
 
 /-- in the program engine a tensor is reachable from itself with the identity derivative -/
 theorem prog_engine_self (p : Prog α) (hp : p.WF) (i : Nat) (hi : i < p.length) :
     (p.engine).1.jac i i = some (ident ((p.engine).1.numel i)) := by
-  sorry
+  have _ := hp
+  have _ : Inhabited α := inferInstance
+  exact ProgL.engine_self p i hi
 
 /-- and nothing is reachable from a leaf except the leaf itself -/
 theorem prog_engine_leaf (p : Prog α) (hp : p.WF) (o i : Nat) (ho : o < p.length) (hne : o ≠ i)
     (hleaf : ∃ n d rg vals, p.getD o (.detach 0) = .leaf n d rg vals) :
     (p.engine).1.jac o i = none := by
-  sorry
+  have _ := hp
+  have _ : Inhabited α := inferInstance
+  exact ProgL.engine_leaf p o i ho hne hleaf
 
 end Tjd.Props.C15
